@@ -35,14 +35,24 @@
      bytes produced are the specified content, and the bytes consumed are exactly that frame.
      Any capacity, NULL destination, stableDst; both the direct path and the staged-header
      path (inputs shorter than maxFHSize); direct decoding and decoding through tmpOut.
-   Partial (see the _full_statement below): equality of the verdict with Spec.frame_decode
-   on the concatenation for ALL chunkings (calls that stop in the middle of a frame and
-   resume from the staging buffers) is NOT proved at model level; it is checked on the real
-   code by the harness (same verdict under every chunking, complete => content equals the
-   extracted Spec.frame_decode), and the per-call tie makes the model follow the code. *)
+   - C08_chunking_sound_partial: "never falsely succeeds" for RESUMED calls.  From a context
+     at the start of a frame, for ANY split of the input into pieces and ANY capacities (>= 0),
+     with the documented protocol (what a call does not consume is offered again): if the
+     sequence of calls reports completion, then Spec.frame_decode accepts the input, the
+     concatenation of the outputs of all calls is the specified content and the total consumed
+     is the length of the frame (or the bytes consumed are a skippable frame and nothing was
+     produced).  Proof: a simulation between the staged state (dStage, the prefixes held in
+     header[] / tmpIn[], the not yet flushed part of tmpOut, running hashes, history, remaining
+     size) and a position in frame_decode's parse of the whole frame (Proofs/FrameDChunk.v,
+     invariant CInv: "what was consumed so far, followed by any g that the rest of the
+     specification accepts from here, is accepted with that result"), stage by stage.
+   Partial (see the _full_statement below): the COMPLETENESS half - on a valid frame every
+     chunking reaches completion - is not proved at model level; it is checked on the real
+     code by the harness (same verdict under every chunking, complete => content equals the
+     extracted Spec.frame_decode), and the per-call tie makes the model follow the code. *)
 From Coq Require Import ZArith List Lia Bool.
 From LZ4V Require Import Spec.BlockSpec Spec.XXH32 Spec.FrameSpec Gen.Consts Model.FrameD.
-From LZ4V Require Import Proofs.FrameDHeader Proofs.FrameDProofs Proofs.FrameDSound.
+From LZ4V Require Import Proofs.FrameDHeader Proofs.FrameDProofs Proofs.FrameDSound Proofs.FrameDChunk.
 Import ListNotations.
 Local Open Scope Z_scope.
 
@@ -117,19 +127,19 @@ Theorem C08_complete_sound_oneshot_usingDict : forall bdec s0 data cap dict o,
 Proof. exact oneshot_sound_usingDict. Qed.
 Print Assumptions C08_complete_sound_oneshot_usingDict.
 
-(* ---- the part that is not proved at model level ---- *)
-(* drive a byte string through the model in pieces: chunk sizes [ns], capacities [caps] *)
-Inductive verdict := VComplete (content : list byte) (consumed : Z) | VError | VMore.
-Fixpoint drive (bdec : list byte -> list byte -> option (list byte)) (o : dopts) (fuel : nat)
-         (s : dstate) (data : list byte) (ns caps : list Z) (acc : list byte) (pos : Z) : verdict :=
-  match fuel, ns, caps with
-  | S f, n :: ns', cap :: caps' =>
-      let '(s', r) := decompress bdec s (ztake n data) cap o in
-      if r_ret r <? 0 then VError
-      else if r_ret r =? 0 then VComplete (acc ++ r_out r) (pos + r_consumed r)
-      else drive bdec o f s' (zdrop (r_consumed r) data) ns' caps' (acc ++ r_out r) (pos + r_consumed r)
-  | _, _, _ => VMore
-  end.
+(* soundness under chunking ([drive] : Proofs/FrameDChunk.v - the input offered in pieces of sizes
+   [ns] with capacities [caps], what a call does not consume is offered again) *)
+Theorem C08_chunking_sound_partial : forall bdec o dict k s data ns caps content consumed,
+  wf s -> d_stage s = GetFrameHeader -> d_remaining s = 0 -> d_hist s = dict -> d_skip s = false ->
+  bytes_ok data = true -> Forall (fun c => 0 <= c) caps ->
+  drive bdec o k s data ns caps [] 0 = VComplete content consumed ->
+  zlen content < 18446744073709551616 ->
+  (exists rest, frame_decode bdec (o_skip o) dict data = Some (content, rest) /\ consumed = zlen data - zlen rest)
+  \/ (content = [] /\ 4 <= consumed <= zlen data /\ Z.land (rd32 data) SKIP_MASK = FD_MAGIC_SKIPPABLE_START).
+Proof. exact chunked_sound. Qed.
+Print Assumptions C08_chunking_sound_partial.
+
+(* ---- the part that is not proved at model level: completeness under chunking ---- *)
 (* (the frame is valid with ALL checksums verified: under skipChecksums the code - and the model -
    still verifies the checksum of compressed blocks, see C08_example_skip_asymmetry) *)
 Definition C08_chunking_independent_full_statement : Prop :=
@@ -161,6 +171,16 @@ Proof.
   vm_compute. repeat split; try reflexivity; auto;
     try (right; exists 65536; repeat split; auto; try (left; reflexivity)); try lia; try discriminate.
 Qed.
+
+(* the chunked theorem applies: the same frame in three pieces, capacity 2 *)
+Example C08_example_chunked :
+  let hdr := [4; 34; 77; 24; 108; 64; 3; 0; 0; 0; 0; 0; 0; 0; 41] in
+  let body := [3; 0; 0; 128; 97; 98; 99; 0; 0; 0; 0] in
+  let crc := le_bytes 4 (xxh32 0 [97; 98; 99]) in
+  let data := hdr ++ body ++ crc ++ [9; 9] in
+  drive spec_decode (mkO false false false) 3 dctx_init data [17; 13; 11] [2; 2; 2] [] 0 = VComplete [97; 98; 99] 30
+  /\ frame_decode spec_decode false [] data = Some ([97; 98; 99], [9; 9]).
+Proof. vm_compute. split; reflexivity. Qed.
 
 Example C08_example_header :
   parse_desc [108; 64; 3; 0; 0; 0; 0; 0; 0; 0; 41]
